@@ -79,7 +79,9 @@ def h_l1(sym, params):
     text = ""
     for j in range(params["maxlen"]):
         if j < ln:
-            text += sym.choice(f"ch{j}", list(ALPHABET))
+            text += (ALPHABET[params["first"]] if j == 0 and "first" in params else sym.choice(f"ch{j}", list(ALPHABET)))
+    if "first" in params:
+        sym.assume(ln >= 1)
     e = E429()
     e.headers = {"Retry-After": text}
     try:
@@ -379,8 +381,9 @@ def h_honour(sym, params):
 def jobs(tier):
     q = tier == "quick"
     wall = 900 if q else 3000
-    out = [dict(name=f"l1:len<={3 if q else 4}", harness="rv.props.c20:h_l1", params=dict(maxlen=3 if q else 4),
-                max_wall_s=wall, weight=5),
+    out = [dict(name=f"l1:len<={3 if q else 4}:first={ALPHABET[c]!r}", harness="rv.props.c20:h_l1",
+                params=dict(maxlen=3 if q else 4, first=c), max_wall_s=wall, weight=5) for c in range(len(ALPHABET))]
+    out += [dict(name="l1:empty", harness="rv.props.c20:h_l1", params=dict(maxlen=0), max_wall_s=wall),
            dict(name="l2:stubs", harness="rv.props.c20:h_l2", params={}, max_wall_s=wall, weight=2),
            dict(name="containers", harness="rv.props.c20:h_container", params={}, max_wall_s=wall, weight=1),
            dict(name="honour:sync", harness="rv.props.c20:h_honour", params={"async": False}, max_wall_s=wall, weight=1),
